@@ -25,11 +25,13 @@ def parseRequired (s : String) : Option (List Secret) :=
   if s == "-" then some [] else (s.splitOn ",").mapM Secret.ofName
 
 /-- control tokens between requests: `@node:<nodeid>` (the serving node's id) and `@migrate:<swissnum>:<nodeid>` (the
-share directory is now served by a node with this swissnum and nodeid); both print `ctl` -/
+share directory is now served by a node with this swissnum and nodeid), `@expire:<si>:<n>` (that upload timed out /
+its client disconnected); all print `ctl` -/
 def controlTok (sw : Tahoe.Http.Bytes) (st : State) (tok : String) : Option (Tahoe.Http.Bytes × State) :=
   match tok.splitOn ":" with
   | ["@node", n] => do pure (sw, { st with myNodeid := ← bytesOfHex n })
   | ["@migrate", s, n] => do pure (← bytesOfHex s, migrate st (← bytesOfHex n))
+  | ["@expire", si, n] => do pure (sw, stepEvent sw st (.expire (si, ← n.toNat?)))
   | _ => none
 
 def runHist (sw : Tahoe.Http.Bytes) (st : State) (acc : List String) : List String → Option (List String × State)
